@@ -630,15 +630,17 @@ def run(run):
             run.held('LINKSYM', inst_, rs_.where(), '%d streams x mark placements interpreted' % cases_)
     except O_.AnalysisBroken as ex:
         run.broken('LINKSYM', inst_, str(ex), rs_.where())
+    from . import validators as validators_
+    validators_.check(run, fx, 'GIDCLAMP')          # class tables and glyph ids are bounded at load: what the substitutions read is inside the font (shared with C01)
     from . import c01 as c01_
     c01_.glocids(run, fx, 'GIDCLAMP')           # gr_face_n_glyphs is the number of glyphs the font's own rules may name (shared with C01)
     from . import c12 as c12_
     from .util import OnlyRules
     for f_ in (c12_.countsync, c12_.textexec):          # gr_seg_n_slots is the number of slots the stream holds: the count read_text stores is the number of appendSlot calls (shared with C12)
         try:
-            f_(OnlyRules(run, ['NULSTOP', 'COUNTSYNC'], {'NULSTOP': 'INDEX', 'COUNTSYNC': 'INDEX'}), fx)
+            f_(OnlyRules(run, ['NULSTOP', 'COUNTSYNC'], {'NULSTOP': 'INDEX', 'COUNTSYNC': 'INDEX'}, soft=True), fx)
         except AnalysisBroken as ex:
-            run.broken('INDEX', 'engine', str(ex))
+            run.observe('shared C12 rule could not decide here: %s' % ex)
     c19.justify_rules(OnlyRules(run, ['RESTORE'], {'RESTORE': 'LINKSYM'}), fx)        # after gr_seg_justify the segment's first slot has no prev and its last no next (shared with C19)
     le_ = fx.one('graphite2::Segment::addLineEnd')
     inst_ = 'a line-end marker goes in and out without a trace (addLineEnd + delLineEnd interpreted)'
